@@ -4,6 +4,7 @@
    anon <hexprefix> <0|1>             set_anonymity
    settc <0|1> <hops>                 set_tunnel_community(tc or None, hops)
    overlay <hexcid> <0|1>             Community.__init__ with settings.anonymize
+   service <0|1> [cid:anon,…]         ipv8_service.IPv8.__init__ (enable_statistics, configured overlays)
    send <addr> <hexpacket>            TunnelEndpoint.send
    burst <n> <addr> <hexprefix> <b>   n sends of prefix ++ be16(b+i); aggregated reply
    newc <goal> <ctype>                a circuit appears in the community
@@ -84,6 +85,7 @@ def parseOp (toks : List String) : Option Op :=
   | ["anon", p, b] => do some (.setAnonymity (← Proto.ofHex? p) (← bool? b))
   | ["settc", a, h] => do some (.setTunnelCommunity (← bool? a) (← h.toNat?))
   | ["overlay", c, b] => do some (.overlay (← Proto.ofHex? c) (← bool? b))
+  | ["overlayf", c, b] => do some (.overlayForeign (← Proto.ofHex? c) (← bool? b))
   | ["send", a, p] => do some (.send (← a.toNat?) (← Proto.ofHex? p))
   | ["newc", g, t] => do some (.newCircuit (← g.toNat?) (← ctypeOf? t))
   | ["hop", i, a, f] => do
@@ -129,6 +131,19 @@ def stepLine (s : State) (toks : List String) : State × String :=
     | some cap => (init cap, "ok")
     | none => (s, "bad-op")
   | ["dump"] => (s, dump s)
+  | ["service", st, ovs] =>
+    -- IPv8.__init__: `service <enable_statistics> [cid:anon,cid:anon,…]`
+    let parsed : Option (List (Bytes × Bool)) := do
+      let items ← Proto.listItems? ovs
+      items.mapM (fun it => match Proto.splitChar it ':' with
+        | [c, b] => do some ((← Proto.ofHex? c), (← bool? b))
+        | _ => none)
+    match bool? st, parsed with
+    | some stats, some l =>
+      let names := (serviceWrappers stats (l.any (·.2))).map (fun w => match w with
+        | .statistics => "StatisticsEndpoint" | .tunnel => "TunnelEndpoint")
+      (runState s (serviceOps stats l), "wrappers=" ++ Proto.showStrList names ++ s!" q={s.queue.length}")
+    | _, _ => (s, "bad-op")
   | ["consts"] => (s, s!"cap={queueCap} hops={initHops} tchops={defaultTcHops} prefix={prefixLen} "
       ++ s!"ipv8={PEER_FLAG_EXIT_IPV8} head={Proto.toHex communityPrefixHead}")
   | ["burst", n, a, p, b] =>
